@@ -24,7 +24,18 @@ THEME7 = ("This round is FREE-STYLE with one constraint: put the regression wher
           "rewrite (comprehension to generator, `== None` to `is None`, `dict()` to literal, f-string conversion, early return), a "
           "py2->py3 idiom, an off-by-one when switching between enumerate/range/slices, a default argument that is mutable, an "
           "exception handler that is too broad. Earlier rounds asked for the following, all still welcome: ")
-theme = THEME5 if rnd == "5" else (THEME6 if rnd == "6" else (THEME7 if rnd == "7" else ""))
+THEME8 = ("This round targets the CORNERS of the quantified domain and the less-travelled ROUTES: pick the corner that a checker which "
+          "samples inputs at random visits least, yet which the statement clearly covers - the extremes of the quantifier (smallest and "
+          "largest sizes, zero or one entries, the LAST configuration or style in a list, a combination of TWO non-default options, the "
+          "third consecutive application), the command-line route versus the Python API route for the same operation (argument plumbing "
+          "in cdd/__main__.py, defaults of keyword arguments that the CLI passes but the API does not, or the reverse), inputs that are "
+          "legal but unusual (an empty or one-line docstring, single-character names, a parameter named like a builtin or like an "
+          "option of the tool itself, tabs for indentation, Windows line ends, a file without trailing newline, non-ASCII text, very "
+          "long lines), or a regression that corrupts only a SECONDARY OBSERVABLE the statement still covers (what is left on disk when "
+          "a command fails, an extra file, the order of names in __all__, blank lines and trailing newline of a rewritten file, a "
+          "message instead of an error). Think like a maintainer: a quick fix for an unrelated issue, a tidy-up, a changed default. "
+          "Use a file AND function none of the earlier changes is in. Earlier rounds asked for the following, all still welcome: ")
+theme = THEME8 if rnd == "8" else THEME5 if rnd == "5" else (THEME6 if rnd == "6" else (THEME7 if rnd == "7" else ""))
 out = "/tmp/wt/prompts%s" % rnd
 os.makedirs(out, exist_ok=True)
 tpl = open("/tmp/wt/prompts3/C01.txt").read()
